@@ -39,6 +39,10 @@ def plan(g, s):
     """Input lists (ids) and argument tuples for one workbook."""
     rnd = random.Random(s * 97 + 1)
     ovsets = L.make_ovsets(g, rnd, NLIST)
+    if getattr(g, 'directed', None):
+        # a directed workbook names the input lists worth trying
+        ovsets = [{'ov': {i: G.rnd_const(rnd, 'n') for i in ids}, 'style': 'cells'}
+                  for ids in g.directed[:NLIST]]
     lists = []
     consts = [i for i, c in g.cells.items() if c['k'] == 'c']
     for o in ovsets:
@@ -104,7 +108,9 @@ def _work(item):
                      'style': lst['style']}
             use_names = (k + li) % 2 == 0
             keys = [kv[0] for kv in concretise_mixed(g, lst, lst['tuples'][0], use_names)]
-            unpop = any(i not in g.cells for i in lst['ids'])
+            # the recorded finding: an input that is an unpopulated cell WITHOUT a node of its
+            # own (only reachable through the SELF look-up of ranges with several blanks)
+            unpop = any(i not in g.cells and not L.has_own_node(g, i) for i in lst['ids'])
             overlap = bool(set(lst['ids']) & set(outs))
             hazard = L.range_override_hazard(g, ovset) or bool(
                 use_names and L.name_override_hazard(g, ovset))
